@@ -428,10 +428,15 @@ def gen_scenario(rng, want=None, forbid=()):
             sc.conds.append(('C%d' % (i + 1), ex))
     nc = len(sc.conds)
     # rules
+    big = bool(want.pop('big', False))
     nrules = rng.randint(2, 10)
-    for _ in range(nrules):
+    nkw = rng.randint(40, 90) if big else 0   # keyword rules: a DFA of several hundred states
+    for ri in range(nrules + nkw):
         r = Rule()
-        r.pat = gen_pattern(rng, alpha, rng.randint(0, 3), feats)
+        if ri >= nrules:
+            r.pat = rx.lit(bytes(rng.choice(alpha) for _ in range(rng.randint(3, 8))))
+        else:
+            r.pat = gen_pattern(rng, alpha, rng.randint(0, 3), feats)
         if nc > 1:
             q = rng.random()
             if q < 0.15 and 'star' in feats:
